@@ -2064,4 +2064,49 @@ theorem specRemoveK_nodup (prune : Bool) (names : List Text) : ∀ (kids kids' :
             · exact AttrTree.nodupL_erase n kids hn
             · exact AttrTree.nodupL_upsert n _ kids hn (by simpa using ih sub0 sub h0 hs)
 
+theorem renderedVals_cons (x : Node) (xs : List Node) : renderedVals (x :: xs) = renderedItem x ++ renderedVals xs := by
+  simp [renderedVals]
+theorem renderedFam_cons (x : Node) (xs : List Node) :
+    renderedFam (x :: xs) = (if x.isBind then renderedItem x else []) ++ renderedFam xs := by
+  simp [renderedFam]
+
+mutual
+  theorem rendered_eq_denote_aux : (n : Node) → valuesMode n = true →
+      renderedTree n = denote n ∧ renderedItem n = denoteI n
+    | .atom _, _ => ⟨rfl, rfl⟩
+    | .ident _, _ => ⟨rfl, rfl⟩
+    | .inherit _ _, _ => ⟨rfl, rfl⟩
+    | .entry _ _ _ _, _ => ⟨rfl, rfl⟩
+    | .set s vs o m r, h => by
+      simp only [valuesMode, Bool.and_eq_true] at h
+      refine ⟨?_, rfl⟩
+      simp only [renderedTree, h.1, if_true, denote_set, (rendered_eq_denoteL_aux vs h.2).1]
+    | .bind i n false v b a, h => by
+      simp only [valuesMode] at h
+      exact ⟨rfl, by simp only [renderedItem, denoteI_bind, (rendered_eq_denote_aux v h).1]⟩
+    | .bind i n true (.set s vs o m r) b a, h => by
+      simp only [valuesMode, Bool.and_eq_true, Bool.not_eq_true'] at h
+      obtain ⟨⟨⟨h1, h2⟩, h3⟩, h4⟩ := h
+      refine ⟨rfl, ?_⟩
+      have hf := (rendered_eq_denoteL_aux vs h4).2 h3
+      have hne : denoteL vs ≠ [] := denoteL_ne_nil vs h3 (by intro e; simp [e] at h2)
+      have : (denoteL vs).isEmpty = false := by cases hd : denoteL vs <;> simp_all
+      simp only [renderedItem, hf, this, Bool.false_eq_true, if_false, denoteI_bind, denote_set]
+    | .bind i n true (.atom _) b a, h => by simp [valuesMode] at h
+    | .bind i n true (.ident _) b a, h => by simp [valuesMode] at h
+    | .bind i n true (.bind _ _ _ _ _ _) b a, h => by simp [valuesMode] at h
+    | .bind i n true (.inherit _ _) b a, h => by simp [valuesMode] at h
+    | .bind i n true (.entry _ _ _ _) b a, h => by simp [valuesMode] at h
+  theorem rendered_eq_denoteL_aux : (xs : List Node) → valuesModeL xs = true →
+      renderedVals xs = denoteL xs ∧ (xs.all isBind = true → renderedFam xs = denoteL xs)
+    | [], _ => ⟨rfl, fun _ => rfl⟩
+    | x :: xs, h => by
+      simp only [valuesModeL, Bool.and_eq_true] at h
+      have hx := (rendered_eq_denote_aux x h.1).2
+      have hxs := rendered_eq_denoteL_aux xs h.2
+      refine ⟨by rw [renderedVals_cons, denoteL_cons, hx, hxs.1], fun hall => ?_⟩
+      simp only [List.all_cons, Bool.and_eq_true] at hall
+      rw [renderedFam_cons, denoteL_cons, hall.1, if_pos rfl, hx, hxs.2 hall.2]
+end
+
 end Nima
